@@ -45,6 +45,7 @@ import (
 	netpkg "github.com/fatedier/frp/pkg/util/net"
 	"github.com/fatedier/frp/pkg/util/tcpmux"
 	"github.com/fatedier/frp/pkg/util/util"
+	"github.com/fatedier/frp/pkg/util/verifhook"
 	"github.com/fatedier/frp/pkg/util/version"
 	"github.com/fatedier/frp/pkg/util/vhost"
 	"github.com/fatedier/frp/pkg/util/xlog"
@@ -588,9 +589,11 @@ func (svr *Service) RegisterControl(ctlConn net.Conn, loginMsg *msg.Login, inter
 		authVerifier = auth.AlwaysPassVerifier
 	}
 	if err := authVerifier.VerifyLogin(loginMsg); err != nil {
+		verifhook.At("svc.login.verify", "host", loginMsg.Hostname, "run_id", loginMsg.RunID, "internal", internal, "claim", loginMsg.ClientSpec.AlwaysAuthPass, "pass_verifier", authVerifier == auth.AlwaysPassVerifier, "ok", false)
 		return err
 	}
 
+	verifhook.At("svc.login.verify", "host", loginMsg.Hostname, "run_id", loginMsg.RunID, "internal", internal, "claim", loginMsg.ClientSpec.AlwaysAuthPass, "pass_verifier", authVerifier == auth.AlwaysPassVerifier, "ok", true)
 	// TODO(fatedier): use SessionContext
 	ctl, err := NewControl(ctx, svr.rc, svr.pxyManager, svr.pluginManager, authVerifier, ctlConn, !internal, loginMsg, svr.cfg)
 	if err != nil {
@@ -600,8 +603,10 @@ func (svr *Service) RegisterControl(ctlConn net.Conn, loginMsg *msg.Login, inter
 	}
 	if oldCtl := svr.ctlManager.Add(loginMsg.RunID, ctl); oldCtl != nil {
 		oldCtl.WaitClosed()
+		verifhook.At("svc.login.waitold.done", "ctl", verifhook.ID(ctl), "old", verifhook.ID(oldCtl))
 	}
 
+	verifhook.At("svc.login.beforestart", "ctl", verifhook.ID(ctl), "run_id", loginMsg.RunID)
 	ctl.Start()
 
 	// for statistics
@@ -620,6 +625,7 @@ func (svr *Service) RegisterWorkConn(workConn net.Conn, newMsg *msg.NewWorkConn)
 	xl := netpkg.NewLogFromConn(workConn)
 	ctl, exist := svr.ctlManager.GetByID(newMsg.RunID)
 	if !exist {
+		verifhook.At("svc.workconn", "run_id", newMsg.RunID, "found", false, "ctl", "", "verify_err", "")
 		xl.Warnf("No client control found for run id [%s]", newMsg.RunID)
 		return fmt.Errorf("no client control found for run id [%s]", newMsg.RunID)
 	}
@@ -640,11 +646,13 @@ func (svr *Service) RegisterWorkConn(workConn net.Conn, newMsg *msg.NewWorkConn)
 	}
 	if err != nil {
 		xl.Warnf("invalid NewWorkConn with run id [%s]", newMsg.RunID)
+		verifhook.At("svc.workconn", "run_id", newMsg.RunID, "found", true, "ctl", verifhook.ID(ctl), "verify_err", err)
 		_ = msg.WriteMsg(workConn, &msg.StartWorkConn{
 			Error: util.GenerateResponseErrorString("invalid NewWorkConn", err, lo.FromPtr(svr.cfg.DetailedErrorsToClient)),
 		})
 		return fmt.Errorf("invalid NewWorkConn with run id [%s]", newMsg.RunID)
 	}
+	verifhook.At("svc.workconn", "run_id", newMsg.RunID, "found", true, "ctl", verifhook.ID(ctl), "verify_err", "")
 	return ctl.RegisterWorkConn(workConn)
 }
 
